@@ -112,7 +112,8 @@ def include_dir():
 def ensure_gen():
     """Tables generated from the CURRENT headers (lib/gen_api.py [+ lib/gen.py if present]) -> build/t_<hash>/gen/"""
     import fcntl
-    d = os.path.join(tree_dir(), "gen")
+    gh = sha([os.path.join(VERIF, "lib", "gen_api.py"), os.path.join(VERIF, "lib", "gen.py")])[:8]
+    d = os.path.join(tree_dir(), "gen_" + gh)      # regenerated when the tree OR a generator changes
     os.makedirs(d, exist_ok=True)
     with open(os.path.join(d, ".lock"), "w") as lk:
         fcntl.flock(lk, fcntl.LOCK_EX)
